@@ -2,6 +2,7 @@ package rules
 
 import (
 	"go/token"
+	"go/types"
 
 	"golang.org/x/tools/go/ssa"
 
@@ -17,7 +18,8 @@ func C11(r *core.Run) {
 		"(R11.1) every non-nil result of ObjectRangeRequest.Range(size) is dominated by guards entailing 0 <= Start < size and 0 <= Length <= size-Start, and the subtraction used in those guards cannot wrap; " +
 		"(R11.2) every backend slices/seeks/limits with exactly that result and the stored size, returns Range()'s error unchanged and reports the range in Object.Range; " +
 		"(R11.3) Content-Range/Content-Length are written from that range and the object size, after the entity headers and before the body; " +
-		"(R11.4) every parse failure of the Range header returns ErrInvalidRange, which maps to 416."
+		"(R11.4) every parse failure of the Range header returns ErrInvalidRange, which maps to 416; " +
+		"(R11.6) no body-returning read answers before Range() was consulted, and a function that receives a range request hands exactly that request to every callee that takes one (no path serves the whole object, or an unchecked range, for a ranged read)."
 	r.NotDecided = "value exactness of start/length for in-range requests, whitespace variants, the multi-range answer (501 today)"
 	ctx := oblig.NewCtx(r.P)
 	rule111(r, ctx)
@@ -25,6 +27,7 @@ func C11(r *core.Run) {
 	rule112(r, ctx)
 	rule113(r)
 	rule114(r)
+	rule116(r)
 }
 
 // rule111 checks the result envelope of Range(); returns true if it holds.
@@ -668,4 +671,139 @@ func positiveEndLoads(r *core.Run, v ssa.Value, positive bool, d int) []ssa.Valu
 		return out
 	}
 	return nil
+}
+
+// rule116 — the range request is consulted on every read path and never dropped on the way.
+func rule116(r *core.Run) {
+	r.Rule("R11.6", "in every function that calls ObjectRangeRequest.Range, each successful return is preceded on all paths by that call — except the paths chosen by a boolean parameter of the function on the side that does not lead to Range (the HEAD / no-body flag) — so there is no early answer for special cases such as empty objects; every function with a *ObjectRangeRequest parameter passes exactly that parameter to every callee parameter of that type (never nil or another request): the request cannot be lost between the handler and Range()")
+	rangeFn := mustFunc(r, "gofakes3.(*ObjectRangeRequest).Range")
+	if rangeFn == nil {
+		return
+	}
+	isRangeReq := func(t types.Type) bool {
+		p, ok := t.(*types.Pointer)
+		return ok && isNamed(r, p.Elem(), "gofakes3", "ObjectRangeRequest")
+	}
+	n := 0
+	for _, fn := range r.P.RepoFuncs() {
+		if fn == rangeFn {
+			continue
+		}
+		f := fn
+		name := fname(r, f)
+		// (a) success only after Range()
+		var calls []ssa.Instruction
+		core.Instrs(f, func(in ssa.Instruction) {
+			if c, ok := in.(*ssa.Call); ok && core.StaticCallee(c) == rangeFn {
+				calls = append(calls, c)
+			}
+		})
+		if len(calls) > 0 {
+			k := 0
+			for ret, ev := range returnedErrors(f) {
+				if !definitelyNil(r, ev) {
+					continue
+				}
+				k++
+				n++
+				early := core.ReachableFromEntryAvoidingEdges(ret, func(in ssa.Instruction) bool {
+					for _, c := range calls {
+						if in == c {
+							return true
+						}
+					}
+					return false
+				}, noBodyEdges(f, calls))
+				r.Check(!early, "R11.6", key(name, "answers only after Range()", sprintf("#%d", k)), pos(r, ret), "success return preceded by Range() on all paths",
+					"the read can answer successfully without having consulted Range(): a ranged request is served without its range being applied or checked (e.g. 200 instead of 416)")
+			}
+		}
+		// (b) the request is handed on unchanged
+		var own []*ssa.Parameter
+		for _, p := range f.Params {
+			if isRangeReq(p.Type()) && p != f.Params[0] || (isRangeReq(p.Type()) && f.Signature.Recv() == nil) {
+				own = append(own, p)
+			}
+		}
+		if len(own) != 1 {
+			continue
+		}
+		core.Instrs(f, func(in ssa.Instruction) {
+			c, ok := in.(ssa.CallInstruction)
+			if !ok {
+				return
+			}
+			sig := c.Common().Signature()
+			args := c.Common().Args
+			off := 0
+			if c.Common().IsInvoke() {
+				off = 0
+			} else if sig.Recv() != nil {
+				off = 1
+				// receiver position: a Range() call on the request itself
+				if core.StaticCallee(c) == rangeFn {
+					n++
+					r.Check(core.Forward(args[0]) == ssa.Value(own[0]), "R11.6", key(name, "request handed on", "Range receiver"), pos(r, in), "Range() is called on the function's own request", "Range() is called on something other than the request this function received")
+					return
+				}
+			}
+			for i := 0; i < sig.Params().Len(); i++ {
+				if !isRangeReq(sig.Params().At(i).Type()) || i+off >= len(args) {
+					continue
+				}
+				n++
+				a := core.Forward(args[i+off])
+				r.Check(a == ssa.Value(own[0]), "R11.6", key(name, "request handed on", r.P.CalleeName(c)), pos(r, in), "the callee receives this function's range request",
+					"a callee that takes a range request is given "+describeArg(a)+" instead of the request this function received: the range is silently dropped and the whole object is served")
+			}
+		})
+	}
+	r.Floor("R11.6", 8, "range hand-over and answer-after-Range instances")
+}
+
+func describeArg(v ssa.Value) string {
+	if core.IsNilConst(v) {
+		return "nil"
+	}
+	return "another value"
+}
+
+// noBodyEdges: for every branch on a boolean parameter of f, the edge that does
+// not lead to any Range() call (the "no body wanted" side, as in toObject's
+// withBody flag) is excused from the answer-after-Range obligation.
+func noBodyEdges(f *ssa.Function, calls []ssa.Instruction) map[core.Edge]bool {
+	out := map[core.Edge]bool{}
+	for _, b := range f.Blocks {
+		if len(b.Instrs) == 0 || len(b.Succs) != 2 {
+			continue
+		}
+		iff, ok := b.Instrs[len(b.Instrs)-1].(*ssa.If)
+		if !ok {
+			continue
+		}
+		cd := core.CondOf(iff.Cond)
+		p, isParam := cd.X.(*ssa.Parameter)
+		if cd.Op != 0 || !isParam {
+			continue
+		}
+		if bt, ok := p.Type().Underlying().(*types.Basic); !ok || bt.Kind() != types.Bool {
+			continue
+		}
+		leads := func(t *ssa.BasicBlock) bool {
+			for _, c := range calls {
+				if c.Block() == t || (len(t.Instrs) > 0 && core.Reaches(t.Instrs[0], c)) {
+					return true
+				}
+			}
+			return false
+		}
+		l0, l1 := leads(b.Succs[0]), leads(b.Succs[1])
+		if l0 && !l1 {
+			out[core.Edge{From: b.Index, To: b.Succs[1].Index}] = true
+		}
+		if l1 && !l0 {
+			out[core.Edge{From: b.Index, To: b.Succs[0].Index}] = true
+		}
+	}
+	return out
 }
